@@ -67,6 +67,7 @@ def main():
                 if rc == 2: print("   stderr:", err)
         finally:
             restore(m)
+            subprocess.run(["rm", "-f"] + [f"{VERIF}/evidence/{p}.mutant.json" for p in pids])
     elif cmd == "sweep":
         sel = [m for m in MUTANTS if not args or m[0] in args]
         results = []
